@@ -20,9 +20,15 @@ Others == << "0.0", "-0.0", "1.5", "1.0e308", "1.0e308 10.0 *", "1.0e308 10.0 * 
              "| |", "|ff|", "|x.x|", "|01 02 03 04 05 06 07 08 09|", "5 { } with-tags", "\"1f\" 16 \"#fmt\" insert-tag", "5 \"x\" \"#fmt\" insert-tag",
              "\"12\" 99 \"#fmt\" insert-tag", "\"12\" 0 \"#fmt\" insert-tag", "[ 1 2 ] { 1 \"k\" } with-tags" >>
 Core == << "0", "-1", "256", "9223372036854775808", "-9223372036854775808", "18446744073709551616", "170141183460469231731687303715884105727", "-170141183460469231731687303715884105728",
-           "1.5", "1.0e308 10.0 * dup -", "\"\"", "@NONASCII76@", "nil", "[ 1 2 3 ]", "{ 1 \"a\" }", "|x.x|", "5 \"x\" \"#fmt\" insert-tag" >>
-Tiny == << "0", "-1", "18446744073709551616", "\"a\"", "[ 1 2 3 ]", "|x.x|" >>
-Full == Ints \o Others
+           "1.5", "1.0e308 10.0 * dup -", "\"\"", "@NONASCII76@", "nil", "[ 1 2 3 ]", "{ 1 \"a\" }", "|x.x|", "5 \"x\" \"#fmt\" insert-tag",
+           "0 { 1 \"k\" } with-tags", "-1 { 1 \"k\" } with-tags", "|00 01| open-bitstr u8", "[ ] { 1 \"k\" } with-tags" >>
+Tiny == << "0", "-1", "18446744073709551616", "\"a\"", "[ 1 2 3 ]", "|x.x|", "0 { 1 \"k\" } with-tags" >>
+\* every type once more under a tag map (words that match on the cell instead of its value), boundary integers included
+Tagged(x) == x \o " { 1 \"k\" } with-tags"
+TaggedPool == << Tagged("0"), Tagged("-1"), Tagged("1"), Tagged("-170141183460469231731687303715884105728"), Tagged("18446744073709551616"),
+                Tagged("0.0"), Tagged("\"\""), Tagged("nil"), Tagged("true"), Tagged("[ ]"), Tagged("{ }"), Tagged("| |"), Tagged("|ff|"),
+                "|00 01| open-bitstr u8", "|00 01| open-bitstr 3 bits" >>
+Full == Ints \o Others \o TaggedPool
 Pool(ar) == IF ar <= 1 THEN Full ELSE IF ar = 2 THEN (IF Size = "full" THEN Full ELSE Core) ELSE (IF Size = "full" THEN Core ELSE Tiny)
 
 Names == {Table[i].w : i \in 1..Len(Table)}
